@@ -696,7 +696,74 @@ fn c13_misc_ops() {
     std::mem::forget(sq);
 }
 
+//@ prop: C13 C01
+//@ tier: quick
+//@ what: Signals::receive: read(2) of one signalfd_siginfo from the signalfd: READ{fd, off = -1 (current position), addr = the info buffer inside the operation state, len = 128 = sizeof(struct signalfd_siginfo)}, IOSQE_ASYNC, FIXED_FILE iff direct; the SignalInfo accessors return ssi_signo / ssi_pid / ssi_uid read at their uapi byte offsets (0, 12, 16) for every record content; Ring::pollable's request: POLL_ADD{fd = the watched ring's descriptor, poll32_events = EPOLLIN|EPOLLHUP|EPOLLERR|EPOLLET|EPOLLEXCLUSIVE, len = IORING_POLL_ADD_MULTI}
+//@ bound: fd/kind symbolic; the 20 leading bytes of the record symbolic (the rest zero)
+//@ encodes: process::Signals::receive; <io_uring::process::ReceiveSignalOp as FdOp>::fill_submission; process::SignalInfo::{signal,pid,real_user_id}; io_uring::process::{signal,pid,real_user_id}; <io_uring::poll::PollableOp as op::Iter>::poll_next (request closure)
+//@ stubs: as c13_read_write
+//@ assumes: the Pollable is built with poll::Pollable::new as Ring::pollable does (its same-ring assertion is not exercised; the model has one ring descriptor)
+fn c13_signal_receive_and_pollable() {
+    let sq = sq();
+    let which: u8 = kani::any();
+    kani::assume(which < 3);
+    let mut want = ZERO_SQE;
+    match which {
+        0 => {
+            let n: i32 = kani::any();
+            kani::assume(n >= 0 && n < i32::MAX);
+            let direct: bool = kani::any();
+            let fd = unsafe { AsyncFd::from_raw(n, if direct { Kind::Direct } else { Kind::File }, sq.clone()) };
+            let signals = crate::process::verif_procsup::signals_around(fd);
+            let mut f = signals.receive();
+            let e = submit(&mut f);
+            want.opcode = 22; // IORING_OP_READ
+            want.fd = n;
+            want.flags = (if direct { IOSQE_FIXED_FILE } else { 0 }) | IOSQE_ASYNC;
+            want.off = NO_OFFSET;
+            want.len = 128;
+            want.addr = e.addr;
+            assert!(e == want, "read(2) of one signalfd_siginfo");
+            let ra = crate::process::verif_procsup::receive_signal_res_addr(&f) as u64;
+            assert!(e.addr == ra, "the record is read into the operation's own state");
+            kani::cover!(direct);
+            std::mem::forget(f);
+        }
+        1 => {
+            // the record by uapi byte offset: ssi_signo @0, ssi_errno @4, ssi_code @8, ssi_pid @12, ssi_uid @16
+            let words: [u32; 5] = [kani::any(), kani::any(), kani::any(), kani::any(), kani::any()];
+            let info = crate::process::verif_procsup::signal_info_from_words(words);
+            let (signo, pid, uid) = (words[0], words[3], words[4]);
+            assert!(crate::process::verif_procsup::signal_number(info.signal()) == signo as i32, "ssi_signo");
+            assert!(info.pid() == pid, "ssi_pid");
+            assert!(info.real_user_id() == uid, "ssi_uid");
+            kani::cover!(pid != uid && signo != pid);
+        }
+        _ => {
+            let state = crate::poll::PollableState::new(sq.clone());
+            let mut f = crate::poll::Pollable::new(sq.clone(), state, ());
+            let w = k::waker(0);
+            let mut ctx = Context::from_waker(&w);
+            let r = Pin::new(&mut f).poll_next(&mut ctx);
+            assert!(r.is_pending());
+            std::mem::forget(r);
+            assert!(ops::requests() == 1, "exactly one request");
+            want.opcode = 6; // IORING_OP_POLL_ADD
+            want.fd = k::RING_FD;
+            want.len = 1; // IORING_POLL_ADD_MULTI
+            // EPOLLIN 0x1 | EPOLLERR 0x8 | EPOLLHUP 0x10 | EPOLLEXCLUSIVE 1<<28 | EPOLLET 1<<31
+            want.op_flags = 0x1 | 0x8 | 0x10 | (1 << 28) | (1 << 31);
+            assert!(ops::last_request() == want, "multishot poll of the other ring's descriptor");
+            std::mem::forget(f);
+        }
+    }
+    kani::cover!(which == 0);
+    kani::cover!(which == 2);
+    std::mem::forget(sq);
 }
+
+}
+
 
 //@ prop: C13
 //@ tier: quick
